@@ -95,7 +95,7 @@ def random_action(cl, rng, w, state):
             spec['cb'] = False
         at = rng.choice(ids)
         iso = getattr(cl, 'script_isolated', None)
-        if iso in ids and rng.random() < state.get('submit_at_isolated', 0.0):
+        if iso in ids and rng.random() < w.get('submit_iso', state.get('submit_at_isolated', 0.0)):
             at = iso
         return ('Submit', at, cid, spec)
     if k == 'Break':
